@@ -8,7 +8,17 @@ for SID in "$@"; do
   git -C /repo worktree remove --force $WT >/dev/null 2>&1
   git -C /repo worktree add -q $WT HEAD || continue
   if ! git -C $WT apply /verif/seeded/$SID/patch.diff; then echo "$SID: PATCH DOES NOT APPLY" > /tmp/seedmatrix/$SID.txt; git -C /repo worktree remove --force $WT; continue; fi
-  ( cd /verif && VERIF_REPO=$WT VP_EVIDENCE=/tmp/seedmatrix/ev-$SID VP_REPLAYS=/tmp/seedmatrix/rp-$SID ./verify $PROP --tier quick --jobs ${JOBS:-8} > /tmp/seedmatrix/$SID.log 2>&1; echo "rc=$?" >> /tmp/seedmatrix/$SID.log )
+  ONLY=""
+  if [ -n "${ONLY_FROM_META:-}" ]; then
+    # regression mode: only the harnesses that reported the change last time (meta.json detected_by)
+    ONLY=$(python3 -c "
+import json,sys
+m=json.load(open('/verif/seeded/$SID/meta.json'))
+hs=[h for h in (m.get('detected_by') or []) if not h.startswith('lemma:')]
+if any(h.startswith('lemma:') for h in (m.get('detected_by') or [])): hs.append('${PROP}_lemmas')
+print(' '.join('--only '+h for h in sorted(set(hs))))")
+  fi
+  ( cd /verif && VERIF_REPO=$WT VP_EVIDENCE=/tmp/seedmatrix/ev-$SID VP_REPLAYS=/tmp/seedmatrix/rp-$SID ./verify $PROP --tier quick --jobs ${JOBS:-8} $ONLY > /tmp/seedmatrix/$SID.log 2>&1; echo "rc=$?" >> /tmp/seedmatrix/$SID.log )
   RC=$(tail -1 /tmp/seedmatrix/$SID.log)
   HARN=$(grep -E "^VIOLATION" /tmp/seedmatrix/$SID.log | sed -E 's/.*replay=.*\/(C[0-9]+_[a-z_A-Z0-9]+)-[0-9a-f]+\.json/\1/' | sort -u | tr '\n' ' ')
   HE=$(grep -c "^HARNESS-ERROR" /tmp/seedmatrix/$SID.log)
